@@ -111,6 +111,8 @@ def compare(ref, got):
 # ----------------------------------------------------------------------------------------------------------------------
 def op_parts(od):
     eqs = [render_eq(lhs, de, ast, (rest[0] if rest else 0)) for lhs, de, ast, *rest in od["eqs"]]
+    for i, text in (od.get("suffix") or {}).items():
+        eqs[int(i)] = eqs[int(i)] + text          # (base operators of a `remove` derivation)
     variables = {v: var_decl(kind, val, od.get("out") == v) for v, kind, val in od["vars"]}
     if any(E.uses_time(ast) for _, _, ast, *_ in od["eqs"]):
         variables["t"] = "variable(0.0)"
@@ -312,11 +314,12 @@ def derivation(draw, spec):
                 extra = draw(st.sampled_from(["zq", "zq2", "rq_in"]))
                 if extra in names:
                     continue
-                base["eqs"][i][2] = ["bin", "+", base["eqs"][i][2], ["bin", "*", ["var", extra], ["num", 0.5]]]
-                base["vars"].append([extra, "const", 0.25])
+                # the base equation has an additional summand, written as text behind the rendered equation (a term is
+                # only removed at identifier/operator boundaries, so it is written and removed as "+ <name>*0.5" after a
+                # space)
                 term = "+ " + E.render(["bin", "*", ["var", extra], ["num", 0.5]])
-                if not render_eq(*base["eqs"][i][:3]).endswith(term):
-                    continue
+                base.setdefault("suffix", {})[str(i)] = " " + term
+                base["vars"].append([extra, "const", 0.25])
                 steps.append({"kind": "remove", "base": base, "edit": {"remove": [term]}, "vars": {}, "contain": False})
                 cur = base
             elif kind == "add":
